@@ -217,6 +217,9 @@ class StaticUseDep(packages.PackageRestriction):
 # Which makes no sense; trace and fix.
 class _UseDepDefaultContainment(values.ContainmentMatch, caching=False):
     __slots__ = ("if_missing",)
+    # x(+) and x(-) match different packages: the default is part of equality
+    # (the hash, over the other attributes, stays consistent with it)
+    __attr_comparison__ = ("vals", "all", "negate", "if_missing")
 
     def __init__(self, if_missing: bool, vals, negate=False):
         self.if_missing = bool(if_missing)
